@@ -709,4 +709,38 @@ Proof.
   intros kA kB Hnd. clear -S3 Hnd. induction S3; cbn [map]; [apply Forall2_nil|apply Forall2_cons; assumption].
 Qed.
 End Line.
+
+Theorem S_all : forall n, S_at n.
+Proof.
+  induction n as [|n IHn]; intros i lvA lvB Hr HiA HiB dA dB stA stB ws fdA fdB HdA HdB HsA HsB Hfd.
+  - assert (i < length lvsA)%nat by (apply nth_error_Some; rewrite HiA; discriminate). lia.
+  - destruct dA as [|dA]; [lia|]. destruct dB as [|dB]; [lia|]. cbn [solve_inf].
+    pose proof (Forall2_nth_error _ _ _ Hviews i) as Hv. rewrite HiA, HiB in Hv.
+    destruct (fos_inf_sim n IHn i lvA lvB HiA HiB Hr (proj1 (HwfA i lvA HiA)) (proj1 (HwfB i lvB HiB)) Hv dA dB ltac:(lia) ltac:(lia) stA stB ws fdA fdB HsA HsB Hfd)
+      as (F1 & F2 & F3).
+    destruct (find_optimal_solution_inf WA lvsA fm (solveA dA) lvA stA ws fdA) as [sa ra].
+    destruct (find_optimal_solution_inf WB lvsB fm (solveB dB) lvB stB ws fdB) as [sb rb].
+    cbn [fst snd] in *. split; [exact F1|split; [exact F2|]]. unfold osim.
+    destruct ra, rb; cbn [sres_sim] in F3; try contradiction; try reflexivity. cbn [option_map]. rewrite F3. reflexivity.
+Qed.
 End Sim.
+
+(* the width-free search does not depend on lengths: from sound states, with sufficient depth fuel, the two runs
+   return the same solution up to the recorded lengths (same decisions, same continuation counts, same penalty, same
+   child solutions), or both none *)
+Theorem solve_inf_sim WA WB lvsA lvsB fm :
+  w_iter WA = w_iter WB -> w_bbb WA = w_bbb WB ->
+  Forall2 view_sim lvsA lvsB -> views_wf lvsA -> views_wf lvsB ->
+  (forall k lv, nth_error lvsA k = Some lv -> view_fun lv) -> (forall k lv, nth_error lvsB k = Some lv -> view_fun lv) ->
+  forall i lvA lvB dA dB stA stB ws fdA fdB,
+    nth_error lvsA i = Some lvA -> nth_error lvsB i = Some lvB ->
+    (length lvsA - i < dA)%nat -> (length lvsA - i < dB)%nat ->
+    sound WA lvsA fm stA -> sound WB lvsB fm stB -> fd_sim fdA fdB ->
+    sound WA lvsA fm (fst (solve_inf WA lvsA fm dA stA lvA ws fdA)) /\ sound WB lvsB fm (fst (solve_inf WB lvsB fm dB stB lvB ws fdB))
+    /\ option_map erase (snd (solve_inf WA lvsA fm dA stA lvA ws fdA)) = option_map erase (snd (solve_inf WB lvsB fm dB stB lvB ws fdB)).
+Proof.
+  intros H1 H2 H3 H4 H5 H6 H7 i lvA lvB dA dB stA stB ws fdA fdB HiA HiB HdA HdB HsA HsB Hfd.
+  exact (S_all WA WB H1 H2 lvsA lvsB H3 H4 H5 H6 H7 fm (length lvsA - i) i lvA lvB (le_n _) HiA HiB dA dB stA stB ws fdA fdB HdA HdB HsA HsB Hfd).
+Qed.
+
+Print Assumptions solve_inf_sim.
